@@ -113,8 +113,8 @@ func verifApkPayload(o scen.Options) {
 	}
 }
 
-// Verif_C01_C_ApkSources_Thorough: a tree, a directory source expanded by the glob model, an on-disk symlink.
-func Verif_C01_C_ApkSources_Thorough() { verifApkPayload(scen.Options{Second: -4}) }
+// Verif_C01_C_ApkSources: a tree, a directory source expanded by the glob model, an on-disk symlink.
+func Verif_C01_C_ApkSources() { verifApkPayload(scen.Options{Second: -4}) }
 
 // Verif_C01_C_ApkAll_Thorough: modes, umask, owners, content, destination and entry type symbolic at once.
 func Verif_C01_C_ApkAll_Thorough() {
